@@ -161,7 +161,11 @@ def _explore_root(cfg, make_monitors, prop, node_budget, deadline, on_node):
         if st is None or 'ctor_exc' in ctx.data or 'op_exc' in ctx.data:
             leaves += 1
             continue
-        avail = driver.available(st)
+        try:
+            avail = driver.available(st)
+        except Exception:    # noqa: BLE001  (reported through the monitors)
+            leaves += 1
+            continue
         if not avail or not st.status:
             leaves += 1
             continue
@@ -188,6 +192,11 @@ def run_exploration(res, prop, rng, make_monitors, budget_s, node_budget,
         def on_node(ctx):
             res.counters['explored_nodes'] += 1
             res.counters.update(ctx.counters)
+            if 'query_exc' in ctx.data and not ctx.violations:
+                exc = ctx.data['query_exc']
+                ctx.violate(f'a yes/no query raised {type(exc).__name__}: '
+                            f'{exc} [{hist.exc_site(exc)}] after op '
+                            f'#{ctx.nevents}')
             for v in ctx.violations:
                 kf = classify(ctx, v) if classify else None
                 res.violation(
